@@ -33,6 +33,9 @@ func init() {
 		for _, dt := range []string{"uint32", "uint64", "float64", "int32", "int16", "int8", "uint16", "uint8"} {
 			p.Jobs = append(p.Jobs, Job{Harness: "opset13.H_C11_constant", Case: map[string]interface{}{"form": "value_typed", "n": 2, "dtype": dt}})
 		}
+		for _, dt := range []string{"int8", "uint8", "int16", "uint16", "int32", "uint32", "int64", "uint64"} {
+			p.Jobs = append(p.Jobs, Job{Harness: "opset13.H_C11_constant", Case: map[string]interface{}{"form": "value_raw", "n": 3, "dtype": dt}})
+		}
 		for _, n := range []int{1, 2, 3} {
 			p.Jobs = append(p.Jobs, Job{Harness: "opset13.H_C11_constant", Case: map[string]interface{}{"form": "value_floats", "n": n}})
 			p.Jobs = append(p.Jobs, Job{Harness: "opset13.H_C11_constant", Case: map[string]interface{}{"form": "value_ints", "n": n}})
